@@ -160,7 +160,8 @@ def r3(ctx: Context) -> None:
         seeds = [x for x in walk_no_nested(f.node) if isinstance(x, ast.Assign) and isinstance(x.value, ast.JoinedStr)]
         for s in seeds:
             parts = {ast.unparse(v.value) for v in s.value.values if isinstance(v, ast.FormattedValue)}
-            ok = parts <= {"self.workflow_identity.workflow_id", "sequence"} and "self.workflow_identity.workflow_id" in parts
+            seq_names = {t.id for n in walk_no_nested(f.node) if isinstance(n, ast.Assign) and "_operation_counters" in ast.unparse(n.value) for t in n.targets if isinstance(t, ast.Name)}
+            ok = parts <= ({"self.workflow_identity.workflow_id"} | seq_names) and "self.workflow_identity.workflow_id" in parts
             ctx.add("R3", f"{f.qualname}::seed-inputs", ok, f.loc(s), "" if ok else f"seed built from {sorted(parts)}")
         bad = [ast.unparse(c)[:50] for c in calls_in(f.node) if call_name(c) in NONDET_CALLS and not (call_name(c) == "random" and isinstance(c.func, ast.Attribute) and isinstance(c.func.value, ast.Name) and c.func.value.id.startswith("temp"))]
         ctx.add("R3", f"{f.qualname}::no-nondeterministic-source", not bad, f.loc(), "" if not bad else f"non-deterministic calls inside the generator: {bad}")
